@@ -31,6 +31,7 @@ EXTRA = {'C03a1': ['C07'], 'C07a1': ['C03'], 'C13a1': ['C01', 'C03'], 'C13a2': [
          'C10g1': ['C07'], 'C10g2': [], 'C11g1': ['C07'], 'C11g2': ['C17'], 'C12g1': ['C02'], 'C12g2': ['C02'], 'C13g2': ['C14'], 'C14g1': ['C13'], 'C14g2': ['C13'], 'C15g1': ['C12'], 'C15g2': ['C02', 'C10'], 'C16g1': ['C12'], 'C16g2': ['C02', 'C01'], 'C17g1': [], 'C17g2': [],
          'C01h1': ['C12'], 'C02h2': ['C08'], 'C03h1': ['C04'], 'C04h2': [], 'C05h1': ['C07', 'C01'], 'C07h1': ['C01'], 'C08h2': [], 'C09g1': [], 'C09h1': ['C15', 'C04'], 'C10h2': ['C02'], 'C11h1': ['C04', 'C03'],
          'C12h1': ['C16'], 'C13h1': ['C04'], 'C14h1': ['C13'], 'C15h2': ['C04', 'C13'], 'C16h2': ['C12'], 'C06h2': ['C05', 'C04'],
+         'C08i1': ['C02'], 'C13i2': ['C08'], 'C15i1': ['C13'], 'C11i2': [], 'C04i2': ['C13'], 'C09i2': [],
          'C17c1': [], 'C08c1': ['C02'], 'C08c2': ['C02'], 'C07c1': ['C03'], 'C07c2': ['C01'], 'C02c1': ['C16'], 'C03c1': ['C07'], 'C03c2': ['C01'], 'C15c1': ['C16', 'C02'], 'C15c2': ['C13'],
          'C11c2': ['C07', 'C10'], 'C12c1': ['C02'], 'C12c2': ['C02'], 'C04c1': ['C03'], 'C01c1': ['C07', 'C11'], 'C01c2': ['C06'], 'C10c1': ['C02'], 'C10c2': ['C02']}
 def run_worker(wid, ids, claimed, snap):
